@@ -248,7 +248,8 @@ func (e *ExpressionAtom) GetSnapshot() string {
 		buff.WriteString(e.VariableName)
 	}
 	if e.ArrayMapSelector != nil && e.ExpressionAtom != nil {
-		buff.WriteString(e.ExpressionAtom.GetSnapshot())
+		// the receiver has been written by the branch above: writing it a second time doubled the
+		// snapshot at every level of a chained selector (f()[0][0]...: exponential time and memory)
 		buff.WriteString("-[]>")
 		buff.WriteString(e.ArrayMapSelector.GetSnapshot())
 	}
